@@ -86,8 +86,14 @@ func spec_shaped(rs FuncResults, n int) bool {
 //@   loop 2 invariant forall j int :: 0 <= j && j < at ==> len(finalResults[j]) >= 1
 //@   note whatever the per-slot iterator yields (it is treated as unknown code that may do anything except rewire a resolver), a function WITH a syntax node gets exactly n non-empty lists - a bodyless declaration too (each slot falls back to its declared type)
 
+func spec_asReturnStmt(n ast.Node) *ast.ReturnStmt { r, _ := n.(*ast.ReturnStmt); return r }
+
 //@ func funcResultsResolver.resultsFromAstAt
 //@   trusted
+//@   fnvalue-calllog 7
+//@   lit 6 requires yield != nil
+//@   lit 6 ensures spec_asReturnStmt(node) != nil ==> len(spec_calls()) == len(old(spec_calls()))+1
+//@   note (lit 6: the ast.Inspect callback that collects the return statements of a body) EVERY return statement the walk reaches is handed on (one logged call of the consumer with that statement) - none is skipped because of where it stands (C14: each list holds the literal values of ALL returns; a return after the first top-level return can still be reached through a label). What the walk REACHES (go/ast.Inspect: every node outside function literals) stays assumed
 //@   assigns *
 //@   preserves pkg/types.funcResultsResolver. pkg/types.pkgInfo. golang.org/x/tools/go/packages. $syncmap:
 //@   note ASSUMED frame of the per-slot resolver (not verified: go/ast traversal through ast.Inspect callbacks): it never stores into a funcResultsResolver
@@ -608,6 +614,8 @@ func spec_loadInv(u *Universe, local map[string]bool, direct map[string]bool, ro
 //@   props C15 C03
 //@   iterator
 //@   requires r != nil && walk != nil
+//@   ensures fnres ==> done1
+//@   note (ensures) completeness of the traversal, one level at a time: unless the callback refused r itself (fnres: the answer of the last callback call made by THIS body, which is walk(r) - the recursive calls are calls of Walk, not of the callback), the loop over r.TypeList runs to its normal exit, i.e. EVERY child is handed to a recursive Walk whatever the callback answered inside the children (a refusal prunes the subtree of the refused node only, never its siblings)
 //@   loop 1 assume forall i int :: 0 <= i && i < len(xs1) ==> xs1[i] != nil
 //@   note (loop 1 assume) the argument lists of a type reference hold non-nil nodes (ParseTypeRef builds them so; a callback that stores nil into the list it is walking is outside the domain)
 //@   note `iterator` (what callers use): Walk performs no store of its own, it only hands r and then, recursively, the nodes of r.TypeList to the callback. The body is verified for safety - in particular the slice-aliasing guard: Walk never rearranges r.TypeList (or a reslice of it) in place
